@@ -421,7 +421,15 @@ class ConnectHelper(Loggable):
             and all(v for v in self.data_pushed.values())
         ):
             with ErrorLogger(self.logger):
-                _check_times(self.out_infos)
+                # a static output has no starting time of its own: its exchanged info
+                # may carry the time of its consumer
+                _check_times(
+                    {
+                        name: info
+                        for name, info in self.out_infos.items()
+                        if not self.outputs[name].is_static
+                    }
+                )
 
             return ComponentStatus.CONNECTED
 
